@@ -17,7 +17,7 @@ from .common import VERIF, MachineryError, seed
 SPEC_DIR = os.path.join(VERIF, "spec")
 JAR = "/opt/veriftools/tla/tla2tools.jar:/opt/veriftools/tla/CommunityModules-deps.jar"
 
-_EMIT = re.compile(r'^<<"(EMIT|HIST|REJECT|ACCEPT)", (.*)>>\s*$')
+_EMIT = re.compile(r'^<<"(EMIT|HIST|REJECT|ACCEPT|TYPES)", (.*)>>\s*$')
 _SUMMARY = re.compile(r"^(\d+) states generated, (\d+) distinct states found, (\d+) states left on queue")
 _COV = re.compile(r"^<(\w+) line (\d+), col \d+ to line \d+, col \d+ of module (\w+)>: (\d+):(\d+)")
 
